@@ -24,7 +24,9 @@ def handle (s : St) (line : String) : St × String :=
   match words line with
   | "case" :: rest =>
     let kind := (rest.findSome? (fun w => match w.splitOn "=" with | ["kind", k] => some k | _ => none)).getD "from1"
-    let n := if kind == "from2" then 2 else if kind == "from3" then 3 else 1
+    -- mixed index types (from2m, from3a/b/c): the harness keeps the non-governing sources at least as long as the others,
+    -- so the length over all sources is the length over the governing ones
+    let n := if kind == "from2" || kind == "from2m" then 2 else if kind == "from3" || kind == "from3a" || kind == "from3b" || kind == "from3c" then 3 else 1
     ({ kind := kind, srcs := List.replicate n [], mapping := [] }, line.trimAscii.toString)
   | ["src", k, vs] => ({ s with srcs := setAt s.srcs (k.toNat?.getD 0) (parseList vs) }, "ok")
   | ["map", vs] => ({ s with mapping := parseList vs }, "ok")
